@@ -49,6 +49,8 @@ type Tty struct {
 	StartErr error
 	// ReadGate, when set, is called at the start of every Read (outside the lock).
 	ReadGate func()
+	// failWrite >= 0: the next Write accepts only that many bytes and fails
+	failWrite int
 	// IdleZeroRead > 0: a Read that finds no input does not block but returns
 	// (0, nil) after this long - a polling tty, which io.Reader permits.
 	IdleZeroRead time.Duration
@@ -59,7 +61,7 @@ var ErrInjected = errors.New("injected tty read error")
 
 // New creates a fake tty of the given size.
 func New(w, h int) *Tty {
-	t := &Tty{w: w, h: h}
+	t := &Tty{w: w, h: h, failWrite: -1}
 	t.cond = sync.NewCond(&t.mu)
 	return t
 }
@@ -179,9 +181,34 @@ func (t *Tty) Read(p []byte) (int, error) {
 	}
 }
 
+// ErrWrite is what a faulted Write returns.
+var ErrWrite = errors.New("injected tty write error")
+
+// FailNextWrite makes the next Write accept only n bytes (clamped to its
+// length) and return an error, as a tty may (EAGAIN, EINTR, EIO).
+func (t *Tty) FailNextWrite(n int) {
+	t.mu.Lock()
+	t.failWrite = n
+	t.mu.Unlock()
+}
+
 func (t *Tty) Write(p []byte) (int, error) {
 	t.mu.Lock()
 	defer t.mu.Unlock()
+	if t.failWrite >= 0 {
+		n := t.failWrite
+		t.failWrite = -1
+		if n > len(p) {
+			n = len(p)
+		}
+		t.logCall("Write", n, true)
+		b := append([]byte{}, p[:n]...)
+		t.blocks = append(t.blocks, b)
+		if t.Sink != nil {
+			t.Sink(b)
+		}
+		return n, ErrWrite
+	}
 	t.logCall("Write", len(p), false)
 	b := append([]byte{}, p...)
 	t.blocks = append(t.blocks, b)
